@@ -618,6 +618,46 @@ func (st *State) loopsFor(fr *Frame) []*loopInfo {
 	return st.e.loopsOf(fr.fn)
 }
 
+var cellVarCache = map[*ssa.Function]map[string]*ssa.Alloc{}
+
+// cellVars: source variables of fn that are backed by an Alloc (found through address-form DebugRefs).
+func (e *Engine) cellVars(fn *ssa.Function) map[string]*ssa.Alloc {
+	if m, ok := cellVarCache[fn]; ok {
+		return m
+	}
+	m := map[string]*ssa.Alloc{}
+	names := map[string]bool{}
+	for _, b := range fn.Blocks {
+		for _, in := range b.Instrs {
+			if d, ok := in.(*ssa.DebugRef); ok {
+				if obj, ok := d.Object().(*types.Var); ok && !obj.IsField() {
+					names[obj.Name()] = true
+					if al, ok := d.X.(*ssa.Alloc); ok && d.IsAddr {
+						m[obj.Name()] = al
+					}
+				}
+			}
+		}
+	}
+	// an Alloc is labelled with the name of the source variable it holds
+	dup := map[string]int{}
+	for _, b := range fn.Blocks {
+		for _, in := range b.Instrs {
+			if al, ok := in.(*ssa.Alloc); ok && names[al.Comment] {
+				dup[al.Comment]++
+				m[al.Comment] = al
+			}
+		}
+	}
+	for n, c := range dup {
+		if c > 1 {
+			delete(m, n) // shadowed / redeclared name: ambiguous
+		}
+	}
+	cellVarCache[fn] = m
+	return m
+}
+
 var loopCache = map[*ssa.Function][]*loopInfo{}
 
 func (e *Engine) loopsOf(fn *ssa.Function) []*loopInfo {
@@ -657,6 +697,15 @@ func (st *State) loopEnv(fr *Frame, li *loopInfo) *Env {
 					env.vars[fv.Name()] = envVar{fr.bindings[i], fv.Type()}
 				}
 			}
+		}
+	}
+	// locals that live in a heap cell (address-taken or captured): always read through the cell
+	for name, al := range st.e.cellVars(fr.fn) {
+		if _, taken := env.vars[name]; taken {
+			continue
+		}
+		if v, ok := fr.vals[al]; ok {
+			env.cells[name] = st.ptrAddr(v, al.Type().Underlying().(*types.Pointer).Elem())
 		}
 	}
 	// source-level locals in scope (lowest priority)
